@@ -19,6 +19,8 @@ package varutil
 // -- a word can only be continued (isSeparated cleared) by opening a new argument
 //@   loop 1 step prev(isSeparated) && !isSeparated ==> len(args) == prev(len(args)) + 1
 //@   loop 1 step len(args) == prev(len(args)) || len(args) == prev(len(args)) + 1
+// -- an escape applies to the next byte only: the flag is set by an unescaped backslash and by nothing else
+//@   loop 1 step isEscaped ==> (ch == '\\' && !prev(isEscaped))
 // -- a newline is never data of an unquoted argument: an escaped newline continues the line and changes no argument
 //@   loop 1 step ch == '\n' ==> len(args) == prev(len(args)) && forall(k, 0 <= k && k < len(args) ==> args[k] == prev(args[k]))
 // -- every byte appended to the current argument is exactly the byte read
